@@ -1,6 +1,7 @@
 import RattrDriver.JsonUtil
 import RattrModel.Diag
 import RattrModel.Spec.ExitCode
+import RattrModel.DiagScope
 
 /- Driver ops of C15 / C16: `diag_run` (model + spec on one (cfg, event list)), `diag_render`. -/
 namespace Rattr.Driver.C15
@@ -57,6 +58,66 @@ def handle (payload : Json) : R Json := do
   return Json.mkObj [
     ("buckets", jState r.state), ("printed", jLines r.printed), ("exit", Json.num r.exit),
     ("output", Json.bool r.output), ("spec", spec)]
+
+/-! op `diag_scoped`: a run as a list of steps (enter_file blocks and diagnostics with the ids of the
+scopes active at the raise, outermost first); scope kinds come from the regenerated table. -/
+
+open Rattr.DiagScope in
+def parseFile (j : Json) : R (Option FileId) :=
+  match j with
+  | .null => .ok none
+  | _ => do return some (← asNat j)
+
+open Rattr.DiagScope in
+def parseStep (j : Json) : R Step := do
+  match (← asStr (← field j "t")) with
+  | "enter" => return .enterFile (← parseFile (← field j "f"))
+  | "leave" => return .leaveFile
+  | "abandon" => return .abandonFile
+  | "diag" =>
+    let ids ← asStrList (← field j "scopes")
+    let kinds ← ids.mapM fun id =>
+      match kindOfId id with
+      | some k => .ok k
+      | none => .error s!"scope id not in the regenerated table (or its verdict is unknown): {id}"
+    return .diag (← parseLevel (← asStr (← field j "level"))) (← asNat (← field j "badness"))
+      (← parseFile (← field j "src")) kinds
+  | t => .error s!"bad step {t}"
+
+open Rattr.DiagScope in
+def specJson (cfg : Cfg) (evs : List Event) : Json :=
+  Json.mkObj [
+    ("exit", Json.num (Spec.exit cfg.strict cfg.threshold evs)),
+    ("output", Json.bool (Spec.outputPrinted cfg.strict cfg.threshold evs)),
+    ("buckets", jState (Spec.buckets (Spec.processed cfg.strict evs))),
+    ("bucketsAll", jState (Spec.buckets evs)),
+    ("counted", Json.num (Spec.countedBadness evs)),
+    ("processed", Json.num (Spec.processed cfg.strict evs).length),
+    ("gateFails", Json.bool (Spec.gateFails cfg.strict cfg.threshold evs)),
+    ("errorLines", jLines (Spec.errorLines cfg.strict cfg.threshold evs))]
+
+open Rattr.DiagScope in
+/-- op `diag_scoped`. -/
+def handleScoped (payload : Json) : R Json := do
+  let cfg ← parseCfg (← field payload "cfg")
+  let steps ← (← asArr (← field payload "steps")).mapM parseStep
+  let r := DiagScope.run cfg steps
+  return Json.mkObj [
+    ("buckets", jState r.state), ("logged", jLines r.logged), ("stderr", jLines r.stderr),
+    ("locs", jStrList (r.locs.map whereStr)),
+    ("exit", Json.num r.exit), ("output", Json.bool r.output), ("gate", Json.bool r.gate),
+    ("inOwnFile", Json.bool (inOwnFile none [] steps)),
+    ("allPass", Json.bool (allPass steps)), ("allBenign", Json.bool (allBenign steps)),
+    -- the contract on the places where the diagnostics really arose
+    ("spec", specJson cfg (bySrc steps)),
+    -- the contract on the places the code counted them for (self-check of the theorems)
+    ("specByCode", specJson cfg (locate none [] steps))]
+
+/-- op `diag_scopes`: the model's reading of the regenerated scope table. -/
+def handleScopes (_ : Json) : R Json :=
+  return jList (Generated.C15.scopes.map fun (id, k, v) =>
+    Json.mkObj [("id", Json.str id), ("kind", Json.str k), ("verdict", Json.str v),
+                ("known", Json.bool (DiagScope.kindOfVerdict k v).isSome)])
 
 def parsePath (j : Json) : R Diag.Path := do
   return { abs := (← asBool (← field j "abs")), comps := (← asStrList (← field j "comps")) }
